@@ -1158,7 +1158,13 @@ pub fn guarded_build(spec: &Spec) -> Guarded {
             let _ = tx.send(r);
         })
         .unwrap();
-    match rx.recv_timeout(Duration::from_secs(BUILD_TIMEOUT_SECS)) {
+    // the wall-clock guard can be widened from outside (the Miri battery interprets the same build
+    // 100-1000x slower; with isolation disabled Miri reads the host clock)
+    let secs = std::env::var("SUX_VERIF_BUILD_TIMEOUT_SECS")
+        .ok()
+        .and_then(|s| s.parse::<u64>().ok())
+        .unwrap_or(BUILD_TIMEOUT_SECS);
+    match rx.recv_timeout(Duration::from_secs(secs)) {
         Ok(Some(out)) => {
             let _ = h.join();
             Guarded::Done(out)
@@ -1766,6 +1772,45 @@ pub fn replay(ctx: &mut Ctx, lines: &[String]) {
 
 type Combo = (&'static str, &'static str, &'static str, &'static str, &'static str, u32, &'static str);
 
+/// the hash seed of the FIRST attempt of a builder with `.seed(builder_seed)`: read off a one-key
+/// build (its first attempt succeeds, so the seed stored in the function is that value)
+fn first_attempt_seed(builder_seed: u64) -> Option<u64> {
+    match catch(|| {
+        VBuilder::<usize, BitFieldVec<usize>>::default().seed(builder_seed).try_build_func(
+            FromIntoIterator::from(0usize..1),
+            FromIntoIterator::from(0usize..),
+            no_logging![],
+        )
+    }) {
+        Some(Ok(f)) => Some(f.verif_parts().1),
+        _ => None,
+    }
+}
+
+/// `dd` pair that puts the two copies of a duplicated key at positions `rank` and `rank + 1` of the
+/// signature-sorted order of the first attempt (keys `Ks::Seq(0)` of type usize, single shard):
+/// the key with the largest signature is overwritten with the key of sorted rank `rank`
+fn dup_at_sorted_rank(n: usize, builder_seed: u64, sw: u32, rank: usize) -> Option<(usize, usize)> {
+    let seed = first_attempt_seed(builder_seed)?;
+    let mut v: Vec<((u64, u64), usize)> = (0..n)
+        .map(|i| {
+            let sig = if sw == 2 {
+                let s: [u64; 2] = <usize as ToSig<[u64; 2]>>::to_sig(&i, seed);
+                (s[0], s[1])
+            } else {
+                let s: [u64; 1] = <usize as ToSig<[u64; 1]>>::to_sig(&i, seed);
+                (s[0], 0)
+            };
+            (sig, i)
+        })
+        .collect();
+    v.sort();
+    if rank + 1 >= n {
+        return None;
+    }
+    Some((v[n - 1].1, v[rank].1))
+}
+
 fn base_spec(c: &Combo, n: usize) -> Spec {
     let (kind, lk, kt, w, be, sw, lg) = *c;
     Spec {
@@ -2334,6 +2379,47 @@ pub fn run(ctx: &mut Ctx) {
                 s.seed = k as u64;
                 run_case(ctx, &s, &o);
                 k += 1;
+            }
+        }
+        // duplicates whose two copies sit at chosen positions of the SORTED signature order of the
+        // first attempt (every power-of-two boundary and its neighbours): a duplicate scan that
+        // works by blocks, pairs or chunks must still compare across its seams. Filters (and
+        // constant-valued functions) matter most: equal values make the doubled equation consistent,
+        // so a missed duplicate yields Ok instead of DuplicateKey.
+        {
+            let n = if thorough { 20_000 } else { 9_000 };
+            let mut ranks: Vec<usize> = vec![0, 1, 2];
+            let mut p = 2usize;
+            while p < n {
+                ranks.extend([p - 2, p - 1, p]);
+                p *= 2;
+            }
+            ranks.push(n - 3);
+            ranks.sort();
+            ranks.dedup();
+            let rcombos = [
+                combo_of("filter", "vec", "usize", "8", "box", 2, "shards"),
+                combo_of("filter", "vec", "usize", "64", "bfv", 1, "noshards"),
+                default_func,
+            ];
+            for (j, r) in ranks.iter().enumerate() {
+                if !thorough && j % 2 == 1 && *r > 8 && *r != 4095 && *r != 4096 {
+                    continue;
+                }
+                let c = &rcombos[j % rcombos.len()];
+                let bs = 1000 + j as u64;
+                if let Some(pair) = dup_at_sorted_rank(n, bs, c.5, *r) {
+                    let mut s = base_spec(c, n);
+                    s.dd = vec![pair];
+                    s.dups = true;
+                    s.seed = bs;
+                    s.th = [1, 2, 8][j % 3];
+                    s.off = j % 4 == 3;
+                    // equal values for the two copies also in the function case
+                    s.vs = Vs::Zero;
+                    ctx.stat("dup_at_sorted_rank");
+                    run_case(ctx, &s, &o);
+                }
             }
         }
         // check_dups(true) without duplicates builds normally
